@@ -630,3 +630,15 @@ Definition lf_handle_get_nolib (rs : list lf_res) (opts : list bytes) (room : Z)
   | Lf205 b => Lf205 (if room <? len b then take room b else b)
   | x => x
   end.
+
+(* ------------------------------------------------------------------ who answers the GET *)
+
+(* resource selection of handle_request() for GET /.well-known/core: an application resource
+   registered under that path takes it; else an unknown-resource handler that has a GET handler
+   AND asked for it with COAP_RESOURCE_HANDLE_WELLKNOWN_CORE; else the built-in handler
+   (an unknown-resource handler without the flag is asked only for other unknown paths) *)
+Inductive lf_target := LfToApp | LfToUnknown | LfToBuiltin.
+Definition lf_wk_target (registered unk_get unk_flag : bool) : lf_target :=
+  if registered then LfToApp
+  else if unk_flag && unk_get then LfToUnknown
+  else LfToBuiltin.
